@@ -415,12 +415,12 @@ def run_history(cname, start, ops, acc, final=None, size=None, check_all=False):
     return True, A
 
 
-def explore_histories(cname, start, ops, depth, first, final, acc):
+def explore_histories(cname, start, ops, depth, first, final, acc, sbase=0):
     """all histories over `ops` (list of (label, op)) of length <= depth whose first op index is `first`
     (prefix replay on fresh objects; a node is compared after its last step)"""
     def dfs(hist):
         acc.count("states")
-        ok, A = run_history(cname, start, [ops[i][1] for i in hist], acc, final=final if len(hist) == depth else None, size=len(hist))
+        ok, A = run_history(cname, start, [ops[i][1] for i in hist], acc, final=final if len(hist) == depth else None, size=10**7 * len(hist) + 40000 * sbase + sum(v * 32 ** (len(hist) - 1 - j) for j, v in enumerate(hist)))
         if ok:
             acc.seen("hist_refstates", (cname, A))
         if not ok or len(hist) >= depth:
